@@ -70,3 +70,15 @@ Fixpoint step_rows_quiet (gv : gval) (n : nat) (cur e : string) (rows : list row
           else let '(t, s, n') := step_rows_quiet gv (S n) cur e rest in (CGuard g e :: t, s, n')
       end
   end.
+
+Fixpoint interp_from_quiet (t : table) (gv : gval) (n : nat) (cur : string) (evs : list string) : list (list cb * string) :=
+  match evs with
+  | [] => []
+  | e :: r =>
+      let '(tr, s, n') := step_rows_quiet gv n cur e (rows_for t cur e) in
+      (tr, s) :: interp_from_quiet t gv n' s r
+  end.
+
+(* the interpreter for machines without a no-transition hook (C#, boost::sml) *)
+Definition table_interp_quiet (t : table) (evs : list string) (gv : gval) : list (list cb * string) :=
+  ([CEntry (first_state t) startup_event], first_state t) :: interp_from_quiet t gv 0 (first_state t) evs.
